@@ -59,6 +59,9 @@ CHECKS = {
     "C11": ("exploration", "runtime monitoring of the real regexpSimplify checker on synthesised files of generated patterns; oracle = Go's regexp (submatch indices on enumerated subjects, group counts and names)",
             "About 2e4 (quick) / 2.5e5 (thorough) distinct patterns from a seeded grammar plus the repository's own example patterns are analysed in files of 500 regexp.MustCompile calls; every proposed rewrite is compiled next to its original and compared on all subject strings up to length 3/4 over the pattern's own runes plus seeded longer ones.",
             "agreement on enumerated subjects is evidence, not proof; four narrow input classes are masked as known findings (listed in evidence)", "5/C11"),
+    "C09": ("exploration", "runtime monitoring of every diagnostic that proposes code: the proposal is located (QuickFix or message), substituted into a scratch copy, and go/parser, go/types and a second run of the real checker judge it; -fix end-to-end through the real analysis binary",
+            "Scenario families for every Suggest rule and hand-written 'replace A with B' checker, generated packages and the maintainers' examples are analysed; each proposal must parse as the category it replaces, keep the file type-checking with the same expression type, swallow no unrelated statement and disappear on re-analysis; go-critic-analysis -fix is run on scratch copies and bytes outside the edit ranges are compared.",
+            "message-only proposals that cannot be matched back to a node are inconclusive; import management is outside an edit's range", "5/C09"),
 }
 
 PENDING = {}
